@@ -85,12 +85,12 @@ pub const SCOPES: [(&str, &str, &str); 8] = [
 ];
 
 pub fn widths(thorough: bool) -> Vec<u32> {
-    let mut v: Vec<u32> = if thorough { (1..=1024).collect() } else { vec![1, 2, 7, 8, 31, 32, 33, 64, 128, 255, 256, 1024] };
-    let top = if thorough { 33 } else { 33 };
+    let mut v: Vec<u32> = if thorough { (1..=4096).collect() } else { (1..=1024).collect() };
+    let top = 33;
     for k in 10..=top {
         for d in [-1i64, 0, 1] {
             let x = (1i64 << k) + d;
-            if x >= 1 && x <= u32::MAX as i64 && (thorough || k % 4 == 0 || k >= 31) {
+            if x >= 1 && x <= u32::MAX as i64 && (thorough || true) {
                 v.push(x as u32);
             }
         }
@@ -385,7 +385,7 @@ pub fn spaces(tier: Tier, _seed: u64) -> Vec<Box<dyn Space>> {
     let mut scalar = Vec::new();
     scalar_cases(&ws, &mut scalar);
     let mut cw = Vec::new();
-    let cws: Vec<u32> = if tier.is_thorough() { ws.iter().copied().filter(|w| *w <= 64 || *w % 97 == 0 || *w > 1024).collect() } else { vec![1, 3, 8, 32, 64, 1024, 65536, u32::MAX] };
+    let cws: Vec<u32> = ws.iter().copied().filter(|w| *w <= 64 || *w % 97 == 0 || *w > 1024).collect();
     const_ident_cases(&cws, &mut cw);
     let mut bad = Vec::new();
     bad_cases(&mut bad);
